@@ -24,30 +24,46 @@ RECURSIVE Sum(_, _)
 Sum(f, n) == IF n = 0 THEN 0 ELSE f[n] + Sum(f, n - 1)
 ModelIdx == [i \in 1..Len(ifiles) |->
                LET recs == ifiles[i]  offs == IOffsets(recs, 1, 0) IN
-               [j \in 1..Len(recs) |-> [off |-> offs[j], b |-> recs[j].b,
-                                        ents |-> [x \in 1..Len(recs[j].ents) |-> [p |-> recs[j].ents[x].p, off |-> recs[j].ents[x].loc.off, sz |-> recs[j].ents[x].loc.sz]]]]]
+               [n |-> ifirst + i - 1,
+                recs |-> [j \in 1..Len(recs) |-> [off |-> offs[j], size |-> recs[j].size, del |-> recs[j].del,
+                                        b |-> IF recs[j].del THEN -1 ELSE recs[j].b,
+                                        ents |-> [x \in 1..Len(recs[j].ents) |-> [p |-> recs[j].ents[x].p, off |-> recs[j].ents[x].loc.off, sz |-> recs[j].ents[x].loc.sz]]]]]]
 ModelPri == [i \in 1..Len(pfiles) |->
                LET recs == pfiles[i]  offs == POffsets(recs, 1, 0) IN
-               [j \in 1..Len(recs) |-> [off |-> offs[j], dig |-> recs[j].k, vlen |-> recs[j].v]]]
-RealIdx(P) == [i \in 1..Len(P.if) |-> [j \in 1..Len(P.if[i].recs) |->
-                 [off |-> P.if[i].recs[j].off, b |-> P.if[i].recs[j].b,
-                  ents |-> [x \in 1..Len(P.if[i].recs[j].ents) |-> [p |-> P.if[i].recs[j].ents[x].p, off |-> P.if[i].recs[j].ents[x].off, sz |-> P.if[i].recs[j].ents[x].sz]]]]]
-RealPri(P) == [i \in 1..Len(P.pf) |-> [j \in 1..Len(P.pf[i].recs) |->
-                 [off |-> P.pf[i].recs[j].off, dig |-> P.pf[i].recs[j].dig, vlen |-> P.pf[i].recs[j].vlen]]]
+               [n |-> pfirst + i - 1,
+                recs |-> [j \in 1..Len(recs) |-> [off |-> offs[j], size |-> recs[j].size, del |-> recs[j].del,
+                                                  dig |-> IF recs[j].del THEN <<>> ELSE recs[j].k,
+                                                  vlen |-> IF recs[j].del THEN -1 ELSE recs[j].v]]]]
+RealIdx(P) == [i \in 1..Len(P.if) |->
+                 [n |-> P.if[i].n,
+                  recs |-> [j \in 1..Len(P.if[i].recs) |->
+                     [off |-> P.if[i].recs[j].off, size |-> P.if[i].recs[j].size, del |-> P.if[i].recs[j].del, b |-> P.if[i].recs[j].b,
+                      ents |-> [x \in 1..Len(P.if[i].recs[j].ents) |-> [p |-> P.if[i].recs[j].ents[x].p, off |-> P.if[i].recs[j].ents[x].off, sz |-> P.if[i].recs[j].ents[x].sz]]]]]]
+RealPri(P) == [i \in 1..Len(P.pf) |->
+                 [n |-> P.pf[i].n,
+                  recs |-> [j \in 1..Len(P.pf[i].recs) |->
+                              [off |-> P.pf[i].recs[j].off, size |-> P.pf[i].recs[j].size, del |-> P.pf[i].recs[j].del,
+                               dig |-> P.pf[i].recs[j].dig, vlen |-> P.pf[i].recs[j].vlen]]]]
 ModelBk == {<<b, bk[b]>> : b \in {x \in Buckets : bk[x] # 0}}
 RealBk(e) == {<<e.bk[i][1], e.bk[i][2]>> : i \in 1..Len(e.bk)}
 ModelFl == [i \in 1..Len(flfile) |-> <<flfile[i].off, flfile[i].sz>>]
 
 \* buckets of the records the real flush appended, in file order
-RealTags(P) == LET per == [i \in 1..Len(P.if) |-> [j \in 1..Len(P.if[i].recs) |-> P.if[i].recs[j].b]]
-               IN FoldLeft(LAMBDA acc, s : acc \o s, <<>>, per)
-ModelRecCount == LET n == [i \in 1..Len(ifiles) |-> Len(ifiles[i])] IN Sum(n, Len(ifiles))
+\* the records a flush appended = the records of the real files that lie behind the model's current end
+\* (file number, offset) - robust against GC having merged or removed older records
+RealNew(P) == LET cur == ifirst + Len(ifiles) - 1
+                  per == [i \in 1..Len(P.if) |->
+                            SelectSeq([j \in 1..Len(P.if[i].recs) |-> [n |-> P.if[i].n, off |-> P.if[i].recs[j].off, b |-> P.if[i].recs[j].b]],
+                                      LAMBDA r : r.n > cur \/ (r.n = cur /\ r.off >= ilen))]
+              IN FoldLeft(LAMBDA acc, s : acc \o s, <<>>, per)
 
 Drift(e) ==
      (IF ModelIdx' # RealIdx(e.st) THEN {"M-index-files"} ELSE {})
   \cup (IF ModelPri' # RealPri(e.st) THEN {"M-primary-files"} ELSE {})
   \cup (IF ModelBk' # RealBk(e) THEN {"M-bucket-table"} ELSE {})
   \cup (IF ModelFl' # e.st.fl THEN {"M-freelist"} ELSE {})
+  \cup (IF pfirst' # e.st.ph.first THEN {"M-primary-first-file"} ELSE {})
+  \cup (IF ifirst' # e.st.ih.first THEN {"M-index-first-file"} ELSE {})
 
 TInit == Init /\ l = 1 /\ RegInit
 
@@ -59,18 +75,20 @@ TNext ==
               /\ bk' = [b \in Buckets |-> 0] /\ inext' = [b \in Buckets |-> NoList]
               /\ ifiles' = << <<>> >> /\ ifirst' = 0 /\ ilen' = 0
               /\ pnext' = <<>> /\ pfiles' = << <<>> >> /\ pfirst' = 0 /\ plen' = 0 /\ recFile' = 0 /\ recPos' = 0
-              /\ flpool' = <<>> /\ flfile' = <<>> /\ hist' = <<>>
+              /\ flpool' = <<>> /\ flfile' = <<>> /\ flgc' = [has |-> FALSE, l |-> <<>>] /\ visited' = {} /\ hist' = <<>>
          [] e.e = "put" -> Put(KeyOfNo(e.k), e.vlen)
          [] e.e = "rem" -> Remove(KeyOfNo(e.k))
          [] e.e = "flush" ->
               /\ hist' = hist
               /\ IF pnext = <<>> /\ Dirty = {}
-                 THEN UNCHANGED <<kv, bk, inext, ifiles, ifirst, ilen, pnext, pfiles, pfirst, plen, recFile, recPos, flpool, flfile>>
-                 ELSE LET tags  == RealTags(e.st)
-                          new   == IF Len(tags) >= ModelRecCount THEN SubSeq(tags, ModelRecCount + 1, Len(tags)) ELSE <<>>
+                 THEN UNCHANGED <<kv, bk, inext, ifiles, ifirst, ilen, pnext, pfiles, pfirst, plen, recFile, recPos, flpool, flfile, flgc, visited>>
+                 ELSE LET rn    == RealNew(e.st)
+                          new   == [i \in 1..Len(rn) |-> rn[i].b]
                           order == IF new \in Perms(Dirty) THEN new ELSE CHOOSE o \in Perms(Dirty) : TRUE
                       IN FlushWith(order)
               /\ Flag(e, Drift(e))
+         [] e.e = "prigc" -> PriGC /\ Flag(e, Drift(e))
+         [] e.e = "idxgc" -> IdxGC(e.scanFree) /\ Flag(e, Drift(e))
          [] OTHER -> UNCHANGED vars
   /\ Consumed(l)
   /\ l' = l + 1
